@@ -44,8 +44,8 @@ class DistGen(solvegen.Gen):
 
 
 def binom_tail(n, k, p):
-    """exact two-sided tail: P(|X - np| >= |k - np|) for X ~ Bin(n, p), as a Fraction-free float sum of exact terms"""
-    from math import comb
+    """two-sided binomial tail: P(|X - np| >= |k - np|) for X ~ Bin(n, p), summed term by term (terms computed in log space)"""
+    from math import lgamma, log, exp
     if p <= 0:
         return 1.0 if k == 0 else 0.0
     if p >= 1:
@@ -54,7 +54,7 @@ def binom_tail(n, k, p):
     tot = 0.0
     for x in range(n + 1):
         if abs(x - n * p) >= d - 1e-12:
-            tot += comb(n, x) * (p ** x) * ((1 - p) ** (n - x))
+            tot += exp(lgamma(n + 1) - lgamma(x + 1) - lgamma(n - x + 1) + x * log(p) + (n - x) * log(1 - p))
     return min(1.0, tot)
 
 
